@@ -1,6 +1,7 @@
 #!/usr/bin/env python3
 """experiment helper: xp.py <unit> <harness> [timeout]  — render unit's kani template into build/X_<unit> and run one harness"""
-import sys, os, time, subprocess, re
+import sys, os, time, subprocess, re, resource
+resource.setrlimit(resource.RLIMIT_STACK, (resource.RLIM_INFINITY, resource.RLIM_INFINITY))
 sys.path.insert(0, '/verif')
 from dv import engine, render
 unit, h = sys.argv[1], sys.argv[2]
